@@ -1,29 +1,25 @@
 (* C15 — Formatting keeps every comment and every task's docstring.  Statements + `exact` + Print Assumptions only.
    mark n = what node n carries: a free-standing comment (its text as the tools show it, i.e. trimmed), a docstring, or nothing. *)
-From Spok Require Import Base Lexer Parser Cst RoundTripL RoundTrip CstWf TrimProofs Layout FmtProofs.
+From Spok Require Import Base Lexer Parser Cst RoundTripL RoundTrip CstWf TrimProofs Layout FmtProofs ParserWf.
 
 (* The full statement: for EVERY input that parses, the formatted text parses to a tree with the same number of nodes, the
    same kind of node at every position (so no comment is lost, duplicated, moved past a statement or absorbed as a docstring),
    the same comment/docstring text at every position, and emptiness of comments/docstrings unchanged. *)
-Definition C15_full_statement : Prop := forall s t, parse s = PTree t ->
+Theorem C15_format_keeps_comments : forall s t, parse s = PTree t ->
   exists t', parse (fmt t) = PTree t' /\ map mark t' = map mark t /\ length t' = length t /\
     Forall2 (fun n n' => match n, n' with
                          | NComment c, NComment c' => (c' = [] <-> c = [])
                          | NTask d _ _ _ _, NTask d' _ _ _ _ => (d' = [] <-> d = [])
                          | NAssign _ _, NAssign _ _ => True
                          | _, _ => False end) t t'.
+Proof. exact format_keeps_comments_all. Qed.
+Print Assumptions C15_format_keeps_comments.
 
-(* PARTIAL: proved for the trees whose canonical layout is admissible (tree_wf, which includes "no non-empty comment directly
-   above an undocumented task"); missing for the full statement: that every parser output satisfies tree_wf. *)
-Theorem C15_format_keeps_comments_partial : forall s t, parse s = PTree t -> tree_wf t ->
-  exists t', parse (fmt t) = PTree t' /\ map mark t' = map mark t /\ length t' = length t /\
-    Forall2 (fun n n' => match n, n' with
-                         | NComment c, NComment c' => (c' = [] <-> c = [])
-                         | NTask d _ _ _ _, NTask d' _ _ _ _ => (d' = [] <-> d = [])
-                         | NAssign _ _, NAssign _ _ => True
-                         | _, _ => False end) t t'.
-Proof. exact format_keeps_comments. Qed.
-Print Assumptions C15_format_keeps_comments_partial.
+(* the parser never yields a non-empty comment directly above an undocumented task (it would be that task's docstring),
+   which is why printing the comment above the task cannot change ownership *)
+Theorem C15_parser_output_shape : forall s t, parse s = PTree t -> tree_wf t.
+Proof. exact parse_tree_wf. Qed.
+Print Assumptions C15_parser_output_shape.
 
 (* the normalisation of comment text is invisible to the tools: the trimmed text is unchanged *)
 Theorem C15_trimmed_text_unchanged : forall c, trim (ctext c) = trim c.
